@@ -410,6 +410,10 @@ namespace bloch::compiler {
 
         std::vector<std::unique_ptr<AnnotationNode>> trailingAnnotations = parseAnnotations();
         for (auto& ann : trailingAnnotations) annotations.push_back(std::move(ann));
+        for (auto& ann : annotations) {
+            if (ann && ann->name == "shots")
+                reportError("'@shots' is only allowed on the main function");
+        }
 
         if (match(TokenType::Constructor)) {
             if (!annotations.empty()) {
@@ -708,12 +712,13 @@ namespace bloch::compiler {
         std::vector<std::unique_ptr<AnnotationNode>> annotations;
 
         while (check(TokenType::At)) {
-            // TODO: refactor this, currently if invalid variable annotation is used, it will be
-            // caught rather than thrown this is a rather hacky solution.
-            try {
-                annotations.push_back(parseVariableAnnotation());
-            } catch (BlochError error) {
+            // Decide by the token after '@'. (Trying the variable form first and falling back on
+            // failure does not work: the failed attempt has already consumed the '@', so
+            // '@quantum' / '@shots(N)' could never be parsed here.)
+            if (checkFunctionAnnotation()) {
                 annotations.push_back(parseFunctionAnnotation());
+            } else {
+                annotations.push_back(parseVariableAnnotation());
             }
         }
 
